@@ -725,6 +725,20 @@ func c03OneOperation(c *Ctx) {
 	{
 		decl := c.P.Decls[pm]
 		var getArg, setArg, setItem, getItem, okVar string
+		// the local that holds the evaluated route (result of extractMethodHTTPInfo, whatever it is called)
+		routeVar := "info"
+		if emi := c.P.Func(pkgOpenAPI, "extractMethodHTTPInfo"); emi != nil {
+			ast.Inspect(decl.Body, func(n ast.Node) bool {
+				if as2, ok := n.(*ast.AssignStmt); ok && len(as2.Rhs) == 1 && len(as2.Lhs) >= 1 {
+					if call, ok := as2.Rhs[0].(*ast.CallExpr); ok && Callee(c.P.DeclPkg[pm].TypesInfo, call) == emi {
+						if id, ok := as2.Lhs[0].(*ast.Ident); ok {
+							routeVar = id.Name
+						}
+					}
+				}
+				return true
+			})
+		}
 		assignSeen := false
 		replaceOK := true
 		parents := parentMap(decl.Body)
@@ -762,12 +776,12 @@ func c03OneOperation(c *Ctx) {
 					setItem = types.ExprString(x.Args[1])
 				}
 				if as != nil && Callee(c.P.DeclPkg[pm].TypesInfo, x) == as && len(x.Args) == 3 {
-					assignSeen = types.ExprString(x.Args[0]) == getItem && types.ExprString(x.Args[1]) == "info.httpMethod"
+					assignSeen = types.ExprString(x.Args[0]) == getItem && types.ExprString(x.Args[1]) == routeVar+".httpMethod"
 				}
 			}
 			return true
 		})
-		r.Check(getArg == "info.path" && setArg == "info.path" && getItem != "" && getItem == setItem && assignSeen && replaceOK, "R03d",
+		r.Check(getArg == routeVar+".path" && setArg == routeVar+".path" && getItem != "" && getItem == setItem && assignSeen && replaceOK, "R03d",
 			"processMethod fetches the path item of info.path, assigns the operation by info.httpMethod and stores it under info.path", c.P.Pos(decl.Pos()),
 			fmt.Sprintf("processMethod: Get(%s)→%s, assign seen=%v, fetched item replaced only when absent=%v, Set(%s, %s): an existing path item is not reused or the key differs from the evaluated path, so operations of RPCs sharing a path are lost or misplaced", getArg, getItem, assignSeen, replaceOK, setArg, setItem))
 	}
